@@ -132,8 +132,26 @@ func (c *Context) NewFloat(x *big.Float) *decimal.Decimal {
 
 // NewFloat64 returns a new *decimal.Decimal set to the (possibly rounded) value
 // of x.
-func (c *Context) NewFloat64(x float64) *decimal.Decimal {
-	return c.New().SetFloat64(x)
+//
+// If x is a NaN, the error is recorded in c like for any other operation that
+// generates a NaN and the value of the result is undefined.
+func (c *Context) NewFloat64(x float64) (r *decimal.Decimal) {
+	z := c.New()
+	if handleNaNs {
+		defer func() {
+			if err := recover(); err != nil {
+				nan, ok := err.(decimal.ErrNaN)
+				if !ok {
+					panic(err)
+				}
+				if c.err == nil {
+					c.err = nan
+				}
+				r = z
+			}
+		}()
+	}
+	return z.SetFloat64(x)
 }
 
 // NewRat returns a new *decimal.Decimal set to the (possibly rounded) value of
